@@ -3386,9 +3386,16 @@ pub fn initialize(env: &mut Env) {
         "≥",
     );
     env.insert_builtin(Divide);
-    env.insert_builtin(TwoNumsToNumsBuiltin {
+    env.insert_builtin(TwoNumsBuiltin {
         name: "%".to_string(),
-        body: |a, b| a % b,
+        body: |a, b| {
+            // exact (integer / rational) remainder by zero would panic inside num
+            if b.is_nonzero() || a.to_rational().is_none() || b.to_rational().is_none() {
+                Ok(Obj::Num(a % b))
+            } else {
+                Err(NErr::value_error("division by zero".to_string()))
+            }
+        },
     });
     env.insert_builtin(TwoNumsBuiltin {
         name: "//".to_string(),
